@@ -19,6 +19,12 @@ Deviation from the design text: none in technique.  "either" verdicts are used w
 property does not decide (trailing bytes after a complete postcard value; upper-case / '+' /
 leading-zero forms of a CustomAddr string) - an accepted value must still be the numeric one.
 
+Growth: specs/identity/AddrSet.tla models EndpointAddr as a set built by from_parts / with_relay_url /
+with_ip_addr / with_addrs (one action per builder call; invariants SetIsUnion, Monotone,
+ViewsPartition); every behaviour up to MaxSteps is replayed on the real type (`vh_ident c02a`), the
+views compared after every call, and the final value rebuilt from the expected set in shuffled order
+with duplicates must be equal, hash equally and have the same postcard / JSON encoding.
+
 Binding self-test (every run): one expectation is flipped in ~80 cases spread over the tables and the
 harness must report every one of them as a mismatch, otherwise the run is a tool error.
 
@@ -165,6 +171,14 @@ def binding_selftest(ctx, cases):
 def run(ctx):
     if ctx.replay:
         rep = json.load(open(ctx.replay))["replay"]
+        if "addrset" in rep:
+            inp = ctx.write_ndjson("c02a-replay.in", [rep["addrset"]])
+            outp = ctx.path("c02a-replay.out")
+            ctx.run_bin("vh_ident", ["c02a", "--in", inp, "--out", outp, "--n", rep["n"]])
+            for o in ctx.read_ndjson(outp):
+                for f in o["fails"]:
+                    ctx.report({"tbl": "addrset", "what": f["what"]}, "%s: spec says %s, implementation gave %s" % (f["what"], f["exp"], f["got"]), rep)
+            return
         run_cases(ctx, [rep["case"]], rep["n"], "replay")
         return
     # 1. all tables in one TLC run (JVM start dominates); the model's own consistency is checked here
@@ -184,6 +198,38 @@ def run(ctx):
     per_tbl = run_cases(ctx, cases, n, "all")
     binding_selftest(ctx, cases)
     ctx.log("concretisations per table: %s" % per_tbl)
+    # growth: EndpointAddr builder algebra (AddrSet.tla), every behaviour replayed on the real type
+    ares = ctx.tlc("identity", "AddrSet", mode="gen", constants={"MaxSteps": ctx.pick(2, 3)}, timeout=900,
+                   require_actions=["FromParts", "WithRelay", "WithIp", "WithAddrs"])
+    beh = ares.replays
+    beh.sort(key=lambda b: json.dumps(b, sort_keys=True))
+    for i, b in enumerate(beh):
+        b["idx"] = i
+    ainp = ctx.write_ndjson("c02a.in", beh)
+    aoutp = ctx.path("c02a.out")
+    ctx.run_bin("vh_ident", ["c02a", "--in", ainp, "--out", aoutp, "--n", ctx.pick(2, 4)])
+    aobs = ctx.read_ndjson(aoutp)
+    if len(aobs) != len(beh):
+        raise ToolError("harness returned %d observations for %d AddrSet behaviours" % (len(aobs), len(beh)))
+    for b, o in zip(beh, aobs):
+        word = [[st["op"], st["args"]] for st in b["steps"]]
+        ctx.count({"addrset": word}, nontrivial=any(st["args"] for st in b["steps"]), n=o["runs"])
+        for f in o["fails"]:
+            if f["what"].startswith("harness-assumption"):
+                raise ToolError("harness could not replay %s: %s" % (word, f["got"]))
+            ctx.report({"tbl": "addrset", "what": f["what"].split(" after step")[0], "ops": "+".join(st["op"] for st in b["steps"])},
+                       "EndpointAddr behaviour %s, concretisation %d: %s: spec says %s, implementation gave %s"
+                       % (word, f["rep"], f["what"], f["exp"], f["got"]), {"addrset": b, "n": 2, "fail": f})
+            break
+    per_tbl["addrset"] = sum(o["runs"] for o in aobs)
+    flipped = [dict(b, steps=b["steps"][:-1] + [dict(b["steps"][-1], view=dict(b["steps"][-1]["view"], empty=not b["steps"][-1]["view"]["empty"]))])
+               for b in beh[:: max(1, len(beh) // 10)]]
+    finp = ctx.write_ndjson("c02a-selftest.in", flipped)
+    foutp = ctx.path("c02a-selftest.out")
+    ctx.run_bin("vh_ident", ["c02a", "--in", finp, "--out", foutp, "--n", 1])
+    if any(o["ok"] for o in ctx.read_ndjson(foutp)):
+        raise ToolError("binding self-test: a flipped AddrSet expectation was not detected")
+    ctx.cov["binding_selftest_flips_detected"] += len(flipped)
     for c in cases:
         if (c["tbl"] == "keystr" and c["accept"] and c["alpha"] == "b32Mixed") or \
            (c["tbl"] == "keystr" and c["len"] == 52 and not c["canon"] and c["dec"] == "pk_fromstr" and c["alpha"] == "b32Lower"
